@@ -22,7 +22,7 @@ def stepC14 (s : Unit) (ws : List String) : Unit × Resp :=
     (s, { model := if ok then "close" else "far", spec := if n ≥ 2 then "close" else "-" })
   -- round trip as every consumer performs it (new / downsample / select / record all go through it)
   | [op, n] =>
-    if op == "rt" || op == "new" || op == "newtree" || op == "ds" || op == "rec" || op == "sel" then
+    if op == "rt" || op == "new" || op == "newtree" || op == "ds" || op == "dsn" || op == "seln" || op == "rec" || op == "sel" then
       let n := n.toNat!
       let r := scaledForMaxHash (maxHashForScaled n)
       (s, { model := toString r, spec := if n ≤ pow31 then toString n else "-" })
